@@ -77,6 +77,14 @@ def gen_history(rng, nops, hostile=False, big=False):
     l1 = [rng.choice(("n", "0", "0", "5", "2", "1")) for _ in range(ncl)]
     lines = ["cfg %s %s" % (",".join(map(str, srvl)), ",".join(l1))]
     nkeys = rng.choice((1, 2, 3, 5, 8))
+    if not hostile and rng.random() < 0.35:
+        # "hot" histories: one or two keys shared by clients that all have an L1, no eviction:
+        # revalidation / refresh / purge paths dominate
+        nkeys = rng.choice((1, 2))
+        srvl = [0] * nsrv
+        ncl = rng.choice((2, 3))
+        l1 = [rng.choice(("0", "5")) for _ in range(ncl)]
+        lines = ["cfg %s %s" % (",".join(map(str, srvl)), ",".join(l1))]
     keys = [rand_name(rng) for _ in range(nkeys)]
     trigs = [rand_name(rng) for _ in range(rng.choice((1, 2, 4, 8)))] + keys[:2]
     if hostile:
@@ -565,7 +573,7 @@ def main():
     else:
         hs = exhaustive_histories(3, cfgs, stride=5, offset=rng.randrange(5)) + exhaustive_histories(4, cfgs[:1], stride=97, offset=rng.randrange(97))
     run_stream("exhaustive", hs, True)
-    hs = [gen_history(rng, rng.randrange(30, 200), big=(i % 5 == 0)) for i in range(4000 if thorough else 90)]
+    hs = [gen_history(rng, rng.randrange(30, 200), big=(i % 5 == 0)) for i in range(4000 if thorough else 160)]
     run_stream("random", hs, True)
     # ---- the excluded points (NUL / empty names): model must still follow the code; not judged
     hs = [gen_history(rng, rng.randrange(20, 120), hostile=True) for i in range(1200 if thorough else 30)]
